@@ -1,4 +1,10 @@
-(* C04 - placeholder until the theorems are in place. *)
-Require Import RQ.Base.
-Theorem C04_placeholder : True. Proof. exact I. Qed.
-Print Assumptions C04_placeholder.
+(* C04 - Strokes cover exactly the offset region implied by width, joins and caps.
+   PARTIAL: the f32 model of stroke_to_path is compared bit for bit with the crate and the painted pixels with the f64
+   region of the statement; proved here: a non-positive width paints nothing, stroke = fill of the outline. *)
+Require Import RQ.Base RQ.F32 RQ.Raster RQ.PathF RQ.PathOps RQ.Target RQ.MiscProofs.
+
+Theorem C04_nonpositive_width_paints_nothing_partial : forall p st, fle (s_width st) f0 = true -> stroke_to_path p st = Ok (mk_path [] NonZero).
+Proof. exact stroke_nonpositive_width_paints_nothing. Qed.
+Print Assumptions C04_nonpositive_width_paints_nothing_partial.
+Theorem C04_stroke_is_fill_of_outline_partial : forall st p s o, step_op st (OpStroke p s o) = fill st p s o.
+Proof. reflexivity. Qed.
